@@ -154,6 +154,11 @@ class Engine:
 
     def new_name(self, prefix):
         self.counter += 1
+        if prefix in ("o", "g", "r", "d") and not getattr(self, "_project_name_used", False) and self.rng.random() < 0.04:
+            # an entity may carry any name, the project's own included
+            self._project_name_used = True
+            self.rec.see("entity-named-like-the-project")
+            return "GEOSCIENCE"
         return f"{prefix}{self.counter}_{self.rng.choice(NAMES)}"
 
     def _gc_callback(self, phase, info):
